@@ -2049,6 +2049,25 @@ def int_preserving(F, src, dst):
     return bb >= ba
 
 
+def linear_form(t, sign=1, acc=None):
+    """a sum / difference of terms as {term: coefficient} (constants under the key None): x + (y - x) and y are the same value,
+    x + -1 and x - 1 too"""
+    top = acc is None
+    acc = {} if acc is None else acc
+    while isinstance(t, tuple) and t and t[0] == 'castto':
+        t = t[2]
+    if isinstance(t, tuple) and t[:1] == ('op',) and len(t) == 4 and t[1] in ('+', '-'):
+        linear_form(t[2], sign, acc)
+        linear_form(t[3], sign if t[1] == '+' else -sign, acc)
+    elif isinstance(t, tuple) and t[:1] in (('op',), ('un',)) and len(t) == 3 and t[1] == '-':
+        linear_form(t[2], -sign, acc)
+    elif isinstance(t, tuple) and t[:1] == ('k',) and isinstance(t[1], int):
+        acc[None] = acc.get(None, 0) + sign * t[1]
+    else:
+        acc[t] = acc.get(t, 0) + sign
+    return {k: v for k, v in acc.items() if v != 0} if top else acc
+
+
 def _preexisting(loc, st):
     """is the designated storage part of an object that existed before the evaluation started (reached from `this`, a parameter
     or a global), as opposed to an object the evaluation itself created?"""
